@@ -35,6 +35,7 @@ pub struct MNode {
     pub held: bool,
     pub engine_id: usize,
     pub cutoff: CutoffSpec,
+    pub cutoff_set: bool,
     pub value: Option<MV>,
     pub last_run: Option<u32>,
     pub last_changed: Option<u32>,
@@ -210,6 +211,22 @@ impl Model {
                 v
             }
             rk => crate::world::rk_inputs(rk),
+        }
+    }
+
+    /// Current value of a node as a dependant or observer sees it. A map_ref node is a view: it
+    /// always shows the projection of whatever its input currently holds.
+    pub fn val(&self, h: Hid) -> Option<MV> {
+        let n = &self.nodes[h];
+        if n.invalid {
+            return None;
+        }
+        match &n.rk {
+            RK::MapRef { src, proj } => match self.val(*src) {
+                Some(MV::P(a, b)) => Some(MV::I(if *proj == 0 { a } else { b })),
+                _ => None,
+            },
+            _ => n.value,
         }
     }
 
